@@ -12,7 +12,7 @@
      gen/TableOrder.v);
    - the trace must be in the domain of the crash theorems ([crun], clean boundary, the engine's
      guard said "do"). *)
-From Brc.Model Require Import Base History Table BlockTable Store Crash.
+From Brc.Model Require Import Base History Table BlockTable Store Crash Tie01.
 From Coq Require Import String.
 
 (* a recorded persistent write.  [RV hist k v]: versioned table, history row (hist = true; v =
@@ -142,9 +142,128 @@ Definition btable_names : list string :=
 Definition commit_vorder : list N := [3; 5; 6; 7; 8; 9; 10; 4; 0; 1; 2; 11].
 Definition reorg_vorder : list N := [0; 1; 2; 11; 3; 4; 5; 6; 7; 8; 9; 10].
 
+(* ---------- recovery after an injected crash ----------
+   The same operation (commit / reorg) is run again on the real engine with the fail-point armed
+   at persistent-write index k: [cr_done] are the writes the recorder saw before the crash.
+   The instance is reopened and brc20_reorg([cr_n]) is issued with the recorder on: [cr_rec] are
+   ITS persistent writes, [cr_accepted] whether it answered without error, [cr_probe] a probe of
+   the recovered instance (point reads, range scans, block rows of the three block tables,
+   heights, max row; Tie01.probe_ok).
+
+   The model: [cr_done] must be a prefix of the operation's script for SOME HashMap order; it is
+   mapped back to the model's writes (the [p] of the crash theorems), the crashed-and-reopened
+   store is [reopen (apply_pwrites (persistent s) p)], the recovery is [engine_reorg]; the
+   recorded recovery writes must be the model's [reorg_script] on that store (compared as in
+   [script_matches]) and the probe must agree with the model's recovered store. *)
+Record crashrec := { cr_id : N; cr_done : list rw; cr_n : N; cr_accepted : bool;
+                     cr_rec : list rw; cr_probe : titem }.
+
+Fixpoint is_prefix (a b : list rw) : bool :=
+  match a, b with
+  | [], _ => true
+  | x :: a', y :: b' => rw_eqb x y && is_prefix a' b'
+  | _ :: _, [] => false
+  end.
+
+(* complete pairs, then possibly the first write of one more pair *)
+Fixpoint pairs_partial (l : list rw) : option (list (rw * rw) * option rw) :=
+  match l with
+  | [] => Some ([], None)
+  | [a] => Some ([], Some a)
+  | a :: b :: t =>
+      if rw_key a =? rw_key b
+      then match pairs_partial t with Some (r, x) => Some ((a, b) :: r, x) | None => None end
+      else None
+  end.
+
+Fixpoint nodupb (l : list N) : bool :=
+  match l with
+  | [] => true
+  | a :: t => negb (existsb (N.eqb a) t) && nodupb t
+  end.
+
+Definition rank_of (order : list N) (k : N) : N := index_of (tbl_of k) order 0.
+
+(* is [done] a prefix of [model] up to the order of the key pairs inside the versioned part? *)
+Definition prefix_ok (order : list N) (model done : list rw) : bool :=
+  let '(p1, m1, q1) := split3 model in
+  let '(p2, m2, q2) := split3 done in
+  match m2, q2 with
+  | [], _ => is_prefix done model || (list_eqb rw_eqb p1 p2 && match m1 with [] => true | _ => false end)
+  | _, [] =>
+      list_eqb rw_eqb p1 p2
+      && match pairs_of m1, pairs_partial m2 with
+         | Some mp, Some (dp, tl) =>
+             forallb (fun pr => existsb (pair_rw_eqb pr) mp) dp
+             && nodupb (map pkey dp)
+             && match tl with
+                | None => true
+                | Some w => existsb (fun pr => rw_eqb (fst pr) w) mp && negb (existsb (N.eqb (rw_key w)) (map pkey dp))
+                end
+             && nondecr (map (rank_of order) (map pkey dp ++ match tl with Some w => [rw_key w] | None => [] end))
+         | _, _ => false
+         end
+  | _, _ =>
+      list_eqb rw_eqb p1 p2
+      && match pairs_of m1, pairs_of m2 with
+         | Some a, Some b =>
+             list_eqb pair_rw_eqb (msort (List.length a) a) (msort (List.length b) b)
+             && nondecr (map (fun pr => rank_of order (pkey pr)) b)
+         | _, _ => false
+         end
+      && is_prefix q2 q1
+  end.
+
+Fixpoint map_opt {A B} (f : A -> option B) (l : list A) : option (list B) :=
+  match l with
+  | [] => Some []
+  | a :: t => match f a, map_opt f t with Some b, Some r => Some (b :: r) | _, _ => None end
+  end.
+
+Definition find_pw (ws : list pwrite) (r : rw) : option pwrite :=
+  find (fun w => rw_eqb (rw_of w) r) ws.
+
+Definition op_script (W : N) (s : store) (o : sop) : res (list pwrite) :=
+  match o with
+  | SCommit => commit_script W s
+  | SReorg n => match engine_reorg_guard W 0 s n with
+                | RvDo => reorg_script W s n
+                | _ => Panic
+                end
+  | _ => Err
+  end.
+Definition op_order (o : sop) : list N := match o with SCommit => commit_vorder | _ => reorg_vorder end.
+
+(* 0 = fine; 1 = the writes done before the crash are not a prefix of the script; 2 = the
+   recovery's writes differ from the model's recovery script (or one side refused / no-op'd and
+   the other did not); 3 = the probe of the recovered instance differs from the model's recovered
+   store; 4 = the model could not run *)
+Definition crash_code (W : N) (s : store) (o : sop) (ws : list pwrite) (model : list rw) (cr : crashrec) : N :=
+  if negb (prefix_ok (op_order o) model (cr_done cr)) then 1
+  else
+    match map_opt (find_pw ws) (cr_done cr) with
+    | Some p =>
+        let crashed := reopen (apply_pwrites (persistent s) p) in
+        match engine_reorg_guard W 0 crashed (cr_n cr) with
+        | RvRefused => if cr_accepted cr then 2 else 0
+        | RvNoop =>
+            if cr_accepted cr && match cr_rec cr with [] => true | _ => false end
+            then (if probe_ok crashed (cr_probe cr) then 0 else 3) else 2
+        | RvDo =>
+            match reorg_script W crashed (cr_n cr), sto_reorg W crashed (cr_n cr) with
+            | Ok rs, Ok s2 =>
+                if cr_accepted cr && script_matches reorg_vorder (map rw_of rs) (cr_rec cr)
+                then (if probe_ok s2 (cr_probe cr) then 0 else 3) else 2
+            | _, _ => 4
+            end
+        end
+    | None => 1
+    end.
+
 Inductive citem : Type :=
 | CIOp (o : sop)
-| CICheck (o : sop) (real : list rw).
+| CICheck (o : sop) (real : list rw)
+| CICrashes (o : sop) (crs : list crashrec).
 
 Record ccase := { cc_id : N; cc_items : list citem }.
 
@@ -163,6 +282,7 @@ Definition c_step (W : N) (st : wfst) (s : store) (o : sop) : option (wfst * sto
 Fixpoint c_check (W : N) (st : wfst) (s : store) (items : list citem) : N :=
   match items with
   | [] => 0
+  | CICrashes _ _ :: r => c_check W st s r     (* judged by [crash_fails] *)
   | CIOp o :: r =>
       match c_step W st s o with
       | inl (Some (st', s')) => c_check W st' s' r
@@ -195,6 +315,29 @@ Fixpoint c_check (W : N) (st : wfst) (s : store) (items : list citem) : N :=
         end
   end.
 
+(* the failing crash records of a case: cr_id + code * 1000000000 *)
+Fixpoint crash_fails (W : N) (st : wfst) (s : store) (items : list citem) : list N :=
+  match items with
+  | [] => []
+  | CIOp o :: r | CICheck o _ :: r =>
+      match c_step W st s o with
+      | inl (Some (st', s')) => crash_fails W st' s' r
+      | _ => []           (* reported by [c_check] *)
+      end
+  | CICrashes o crs :: r =>
+      (if w_dirty st then map (fun cr => cr_id cr + 5000000000) crs
+       else match op_script W s o with
+            | Ok ws =>
+                let model := map rw_of ws in
+                flat_map (fun cr => match crash_code W s o ws model cr with
+                                    | 0 => []
+                                    | c => [cr_id cr + c * 1000000000]
+                                    end) crs
+            | _ => map (fun cr => cr_id cr + 4000000000) crs
+            end)
+      ++ crash_fails W st s r
+  end.
+
 (* ids of the failing cases: id = scripts differ; id + 100000000 = model failed;
    id + 500000000 = trace outside the theorems' domain *)
 Definition bad_ccases (W : N) (cs : list ccase) : list N :=
@@ -203,4 +346,4 @@ Definition bad_ccases (W : N) (cs : list ccase) : list N :=
                      | 1 => [cc_id c]
                      | 2 => [cc_id c + 100000000]
                      | _ => [cc_id c + 500000000]
-                     end) cs.
+                     end ++ crash_fails W wf_init st_empty (cc_items c)) cs.
